@@ -514,4 +514,1226 @@ fn c07(cases: &mut u64) -> Option<String> {
     raw_modes("C07", 5, true, cases)
 }
 
-// @@PART2@@
+// ---------------------------------------------------------------------------------------------
+// C08 hook protocol
+// ---------------------------------------------------------------------------------------------
+#[derive(Clone, Copy, Debug, PartialEq)]
+enum Stack {
+    Plain,          // &mut H handed to the algorithm
+    MutRef,         // D = &mut H (the blanket impl for &mut D)
+    Replace,        // Replace<H>
+    Compact,        // Compact<H>
+    CompactReplace, // Compact<Replace<H>>
+    NoFinish,       // NoFinishHook<H>
+}
+const STACKS: [Stack; 6] = [Stack::Plain, Stack::MutRef, Stack::Replace, Stack::Compact, Stack::CompactReplace, Stack::NoFinish];
+
+fn run_stack<H: TestHook>(
+    stack: Stack,
+    alg: Algorithm,
+    old: &[u32],
+    new: &[u32],
+    fail_at: Option<usize>,
+) -> Result<(Result<(), usize>, Vec<Call>), String> {
+    guard(|| {
+        let (or, nr) = (0..old.len(), 0..new.len());
+        match stack {
+            Stack::Plain => {
+                let mut h = H::make(fail_at);
+                let r = diff_deadline(alg, &mut h, old, or, new, nr, None);
+                (r, h.into_calls())
+            }
+            Stack::MutRef => {
+                let mut h = H::make(fail_at);
+                let r = {
+                    let mut m = &mut h;
+                    diff_deadline(alg, &mut m, old, or, new, nr, None)
+                };
+                (r, h.into_calls())
+            }
+            Stack::Replace => {
+                let mut d = Replace::new(H::make(fail_at));
+                let r = diff_deadline(alg, &mut d, old, or, new, nr, None);
+                (r, d.into_inner().into_calls())
+            }
+            Stack::Compact => {
+                let mut d = Compact::new(H::make(fail_at), old, new);
+                let r = diff_deadline(alg, &mut d, old, or, new, nr, None);
+                (r, d.into_inner().into_calls())
+            }
+            Stack::CompactReplace => {
+                let mut d = Compact::new(Replace::new(H::make(fail_at)), old, new);
+                let r = diff_deadline(alg, &mut d, old, or, new, nr, None);
+                (r, d.into_inner().into_inner().into_calls())
+            }
+            Stack::NoFinish => {
+                let mut d = NoFinishHook::new(H::make(fail_at));
+                let r = diff_deadline(alg, &mut d, old, or, new, nr, None);
+                (r, d.into_inner().into_calls())
+            }
+        }
+    })
+}
+
+/// expands Replace into Delete + Insert: what a hook that does not override replace must receive
+fn expand_replace(calls: &[Call]) -> Vec<Call> {
+    let mut out = Vec::new();
+    for c in calls {
+        match *c {
+            Call::Replace(o, ol, n, nl) => {
+                out.push(Call::Delete(o, ol, n));
+                out.push(Call::Insert(o, n, nl));
+            }
+            other => out.push(other),
+        }
+    }
+    out
+}
+
+fn c08_protocol<H: TestHook>(stack: Stack, alg: Algorithm, o: &[u32], n: &[u32], cases: &mut u64) -> Result<Vec<Call>, String> {
+    let ctx = format!("C08 alg={:?} stack={:?} ({}) old={:?} new={:?}", alg, stack, H::NAME, o, n);
+    *cases += 1;
+    let (res, calls) = run_stack::<H>(stack, alg, o, n, None).map_err(|p| format!("{}: {}", ctx, p))?;
+    if let Err(e) = res {
+        return Err(format!("{}: diff returned Err({}) although no hook call failed; calls={:?}", ctx, e, calls));
+    }
+    let fins = calls.iter().filter(|c| **c == Call::Finish).count();
+    if stack == Stack::NoFinish {
+        // everything except finish is forwarded: the inner hook still sees a complete valid script
+        let rules = Rules { carried: Carried::WithinRun, finish: Fin::Never, nonempty: true };
+        check_script(&calls, o, 0..o.len(), n, 0..n.len(), rules).map_err(|e| format!("{}: inner hook saw {:?}: {}", ctx, calls, e))?;
+    } else if fins != 1 || calls.last() != Some(&Call::Finish) {
+        return Err(format!("{}: calls={:?}: finish called {} times / not last (clause: finish exactly once and no other call after it)", ctx, calls, fins));
+    }
+    // every failure index k, unique error value per k
+    for k in 0..calls.len() {
+        *cases += 1;
+        let (r, fc) = run_stack::<H>(stack, alg, o, n, Some(k)).map_err(|p| format!("{} failing call index k={}: {}", ctx, k, p))?;
+        if fc.len() <= k {
+            continue; // the failing call was never reached (cannot happen for a deterministic diff)
+        }
+        if r != Err(ERR_BASE + k) {
+            return Err(format!("{}: hook call #{} ({:?}) returned Err({}) but the diff returned {:?} (clause: the diff returns precisely that error); calls={:?}", ctx, k, fc[k], ERR_BASE + k, r, fc));
+        }
+        if fc.len() != k + 1 {
+            return Err(format!("{}: hook call #{} ({:?}) returned Err({}) but the hook was called again: later calls {:?} (clause: no further call to the hook after an error)", ctx, k, fc[k], ERR_BASE + k, &fc[k + 1..]));
+        }
+    }
+    Ok(calls)
+}
+
+fn c08(cases: &mut u64) -> Option<String> {
+    // direct forwarding checks of the wrappers (arguments chosen to be pairwise distinct)
+    {
+        let want = vec![Call::Equal(1, 2, 3), Call::Delete(4, 5, 6), Call::Insert(7, 8, 9), Call::Replace(10, 11, 12, 13)];
+        let got = guard(|| {
+            let mut w = NoFinishHook::new(Rec::default());
+            let r = [w.equal(1, 2, 3), w.delete(4, 5, 6), w.insert(7, 8, 9), w.replace(10, 11, 12, 13), w.finish()];
+            (r, w.into_inner().calls)
+        });
+        match got {
+            Err(p) => return Some(format!("C08 NoFinishHook direct calls: {}", p)),
+            Ok((r, calls)) => {
+                if calls != want || r.iter().any(|x| x.is_err()) {
+                    return Some(format!("C08 NoFinishHook(recording hook): after equal(1,2,3) delete(4,5,6) insert(7,8,9) replace(10,11,12,13) finish() the inner hook saw {:?}, results {:?}; expected {:?} and no finish (clause: forwards everything except finish)", calls, r, want));
+                }
+            }
+        }
+        // errors are forwarded unchanged
+        for k in 0..4 {
+            let got = guard(|| {
+                let mut w = NoFinishHook::new(Rec { calls: vec![], fail_at: Some(k) });
+                [w.equal(1, 2, 3), w.delete(4, 5, 6), w.insert(7, 8, 9), w.replace(10, 11, 12, 13)]
+            });
+            match got {
+                Err(p) => return Some(format!("C08 NoFinishHook direct calls: {}", p)),
+                Ok(r) => {
+                    for (i, x) in r.iter().enumerate() {
+                        let want = if i == k { Err(ERR_BASE + k) } else { Ok(()) };
+                        if *x != want {
+                            return Some(format!("C08 NoFinishHook: inner call #{} fails with {} but wrapper call #{} returned {:?}", k, ERR_BASE + k, i, x));
+                        }
+                    }
+                }
+            }
+        }
+        // default replace = delete then insert: directly, through &mut, through NoFinishHook, through apply_to_hook
+        let want = vec![Call::Delete(10, 11, 12), Call::Insert(10, 12, 13)];
+        let variants: Vec<(&str, Result<Vec<Call>, String>)> = vec![
+            ("direct", guard(|| { let mut h = RecNoReplace::default(); let _ = h.replace(10, 11, 12, 13); h.0.calls })),
+            ("&mut", guard(|| { let mut h = RecNoReplace::default(); { let mut m = &mut h; let _ = DiffHook::replace(&mut m, 10, 11, 12, 13); } h.0.calls })),
+            ("NoFinishHook", guard(|| { let mut w = NoFinishHook::new(RecNoReplace::default()); let _ = w.replace(10, 11, 12, 13); w.into_inner().0.calls })),
+            ("Replace adapter", guard(|| { let mut w = Replace::new(RecNoReplace::default()); let _ = w.replace(10, 11, 12, 13); w.into_inner().0.calls })),
+            ("DiffOp::apply_to_hook", guard(|| { let mut h = RecNoReplace::default(); let _ = DiffOp::Replace { old_index: 10, old_len: 11, new_index: 12, new_len: 13 }.apply_to_hook(&mut h); h.0.calls })),
+        ];
+        for (name, v) in variants {
+            match v {
+                Err(p) => return Some(format!("C08 default replace via {}: {}", name, p)),
+                Ok(calls) => {
+                    if calls != want {
+                        return Some(format!("C08 replace(10,11,12,13) via {} on a hook that does not override replace delivered {:?}, expected {:?} (clause: receives a delete followed by an insert)", name, calls, want));
+                    }
+                }
+            }
+        }
+        // ... and a failing delete suppresses the insert
+        let r = guard(|| { let mut h = RecNoReplace(Rec { calls: vec![], fail_at: Some(0) }); let r = h.replace(10, 11, 12, 13); (r, h.0.calls) });
+        match r {
+            Err(p) => return Some(format!("C08 default replace: {}", p)),
+            Ok((r, calls)) => {
+                if r != Err(ERR_BASE) || calls.len() != 1 {
+                    return Some(format!("C08 default replace with failing delete: returned {:?}, calls {:?} (clause: returns that error, no further call)", r, calls));
+                }
+            }
+        }
+    }
+    let all = seqs(3, 4);
+    for o in &all {
+        for n in &all {
+            for &alg in &ALGS {
+                for &stack in &STACKS {
+                    let with = match c08_protocol::<Rec>(stack, alg, o, n, cases) {
+                        Ok(c) => c,
+                        Err(w) => return Some(w),
+                    };
+                    let without = match c08_protocol::<RecNoReplace>(stack, alg, o, n, cases) {
+                        Ok(c) => c,
+                        Err(w) => return Some(w),
+                    };
+                    if expand_replace(&with) != without {
+                        return Some(format!("C08 alg={:?} stack={:?} old={:?} new={:?}: hook overriding replace saw {:?}; hook not overriding replace saw {:?}, expected every Replace as Delete followed by Insert", alg, stack, o, n, with, without));
+                    }
+                }
+            }
+        }
+    }
+    None
+}
+
+// ---------------------------------------------------------------------------------------------
+// C02 / C03 / C09 / C11: captured op lists
+// ---------------------------------------------------------------------------------------------
+fn to_text(s: &[u32]) -> String {
+    s.iter().map(|&x| (b'a' + x as u8) as char).collect()
+}
+
+fn lcs_len(a: &[u32], b: &[u32]) -> usize {
+    let mut t = vec![vec![0usize; b.len() + 1]; a.len() + 1];
+    for i in 0..a.len() {
+        for j in 0..b.len() {
+            t[i + 1][j + 1] = if a[i] == b[j] { t[i][j] + 1 } else { t[i][j + 1].max(t[i + 1][j]) };
+        }
+    }
+    t[a.len()][b.len()]
+}
+
+/// (equal, deleted, inserted) item counts
+fn tally(calls: &[Call]) -> (usize, usize, usize) {
+    let (mut e, mut d, mut i) = (0, 0, 0);
+    for c in calls {
+        match *c {
+            Call::Equal(_, _, l) => e += l,
+            Call::Delete(_, l, _) => d += l,
+            Call::Insert(_, _, l) => i += l,
+            Call::Replace(_, ol, _, nl) => {
+                d += ol;
+                i += nl;
+            }
+            Call::Finish => {}
+        }
+    }
+    (e, d, i)
+}
+
+fn c02_one(ctx: &str, ops: &[DiffOp], old: &[u32], or: Range<usize>, new: &[u32], nr: Range<usize>) -> Result<(), String> {
+    let lax = Rules { carried: Carried::Ignore, finish: Fin::Ignore, nonempty: false };
+    check_script(&ops_calls(ops), old, or.clone(), new, nr.clone(), lax).map_err(|e| format!("{} ops={:?}: {}", ctx, ops, e))?;
+    // inverted: old from new (independent walk)
+    let mut back: Vec<u32> = Vec::new();
+    for op in ops {
+        match *op {
+            DiffOp::Equal { new_index, len, .. } => back.extend_from_slice(&new[new_index..new_index + len]),
+            DiffOp::Delete { old_index, old_len, .. } | DiffOp::Replace { old_index, old_len, .. } => back.extend_from_slice(&old[old_index..old_index + old_len]),
+            DiffOp::Insert { .. } => {}
+        }
+    }
+    if back[..] != old[or.clone()] {
+        return Err(format!("{} ops={:?}: applying the inverted ops to new gives {:?}, not old", ctx, ops, back));
+    }
+    let same = old[or.clone()] == new[nr.clone()];
+    if same {
+        if ops.iter().any(|op| !matches!(op, DiffOp::Equal { .. })) {
+            return Err(format!("{} ops={:?}: identical inputs but a non-Equal op (clause: identical inputs give only Equal ops)", ctx, ops));
+        }
+        if or.len() == 0 && !ops.is_empty() {
+            return Err(format!("{} ops={:?}: two empty inputs but ops are not empty", ctx, ops));
+        }
+    }
+    let ratio = guard(|| get_diff_ratio(ops, or.len(), nr.len())).map_err(|p| format!("{}: get_diff_ratio: {}", ctx, p))?;
+    if !(ratio >= 0.0 && ratio <= 1.0) || (ratio == 1.0) != same {
+        return Err(format!("{} ops={:?}: get_diff_ratio(ops,{},{}) = {} (clause: ratio in 0..=1 and 1.0 exactly when the inputs are equal; inputs equal: {})", ctx, ops, or.len(), nr.len(), ratio, same));
+    }
+    Ok(())
+}
+
+fn c02(cases: &mut u64) -> Option<String> {
+    let all = seqs(3, 5);
+    for o in &all {
+        let (oa, or) = embed_old(o);
+        let ot = to_text(o);
+        for n in &all {
+            let (na, nr) = embed_new(n);
+            let nt = to_text(n);
+            for &alg in &ALGS {
+                for &expired in &[false, true] {
+                    *cases += 1;
+                    let dl = if expired { Some(expired_deadline()) } else { None };
+                    let ctx = format!("C02 alg={:?} old={:?} new={:?} deadline={}", alg, o, n, if expired { "expired" } else { "None" });
+                    let ops = match guard(|| capture_diff_slices_deadline(alg, &o[..], &n[..], dl)) {
+                        Ok(x) => x,
+                        Err(p) => return Some(format!("{} capture_diff_slices_deadline: {}", ctx, p)),
+                    };
+                    if let Err(e) = c02_one(&format!("{} capture_diff_slices_deadline", ctx), &ops, o, 0..o.len(), n, 0..n.len()) {
+                        return Some(e);
+                    }
+                    let ops = match guard(|| capture_diff_deadline(alg, &oa[..], or.clone(), &na[..], nr.clone(), dl)) {
+                        Ok(x) => x,
+                        Err(p) => return Some(format!("{} capture_diff_deadline on {:?}[{:?}] / {:?}[{:?}]: {}", ctx, oa, or, na, nr, p)),
+                    };
+                    if let Err(e) = c02_one(&format!("{} capture_diff_deadline on {:?}[{:?}] / {:?}[{:?}]", ctx, oa, or, na, nr), &ops, &oa, or.clone(), &na, nr.clone()) {
+                        return Some(e);
+                    }
+                    // ops stored in a text diff (char tokens 'a'+item)
+                    let r = guard(|| {
+                        let mut cfg = TextDiff::configure();
+                        cfg.algorithm(alg);
+                        if let Some(d) = dl {
+                            cfg.deadline(d);
+                        }
+                        let d = cfg.diff_chars(&ot[..], &nt[..]);
+                        (d.ops().to_vec(), d.ratio())
+                    });
+                    match r {
+                        Err(p) => return Some(format!("{} TextDiff diff_chars({:?},{:?}): {}", ctx, ot, nt, p)),
+                        Ok((ops, ratio)) => {
+                            if let Err(e) = c02_one(&format!("{} TextDiff::diff_chars({:?},{:?}).ops()", ctx, ot, nt), &ops, o, 0..o.len(), n, 0..n.len()) {
+                                return Some(e);
+                            }
+                            if !(ratio >= 0.0 && ratio <= 1.0) || (ratio == 1.0) != (o == n) {
+                                return Some(format!("{} TextDiff::ratio() = {} for {:?} vs {:?}", ctx, ratio, ot, nt));
+                            }
+                        }
+                    }
+                }
+            }
+        }
+    }
+    None
+}
+
+fn c03(cases: &mut u64) -> Option<String> {
+    let spaces = [seqs(3, 6), seqs(2, 8)];
+    for all in &spaces {
+        for o in all {
+            let (oa, or) = embed_old(o);
+            for n in all {
+                let (na, nr) = embed_new(n);
+                let l = lcs_len(o, n);
+                let want = o.len() + n.len() - 2 * l;
+                for &alg in &[Algorithm::Myers, Algorithm::Lcs] {
+                    *cases += 1;
+                    let ctx = format!("C03 alg={:?} old={:?} new={:?} (embedded at {:?}/{:?}) LCS length L={}", alg, o, n, or, nr, l);
+                    let calls = match run_raw(alg, &oa[..], or.clone(), &na[..], nr.clone(), None) {
+                        Ok((_, c)) => c,
+                        Err(p) => return Some(format!("{}: {}", ctx, p)),
+                    };
+                    let (_, d, i) = tally(&calls);
+                    if d + i != want {
+                        return Some(format!("{}: raw callbacks {:?} delete {} + insert {} = {} items, minimum is N+M-2L = {}", ctx, calls, d, i, d + i, want));
+                    }
+                    let ops = match guard(|| capture_diff_deadline(alg, &oa[..], or.clone(), &na[..], nr.clone(), None)) {
+                        Ok(x) => x,
+                        Err(p) => return Some(format!("{} capture: {}", ctx, p)),
+                    };
+                    let (e, d, i) = tally(&ops_calls(&ops));
+                    if d + i != want || e != l {
+                        return Some(format!("{}: captured ops {:?} delete {} + insert {} items (minimum {}), Equal total {} (L = {})", ctx, ops, d, i, want, e, l));
+                    }
+                    if o.len() + n.len() > 0 {
+                        let ratio = get_diff_ratio(&ops, o.len(), n.len());
+                        let exact = 2.0 * l as f64 / (o.len() + n.len()) as f64;
+                        if (ratio as f64 - exact).abs() > 1e-6 {
+                            return Some(format!("{}: ratio {} != 2L/(N+M) = {}", ctx, ratio, exact));
+                        }
+                    }
+                }
+            }
+        }
+    }
+    None
+}
+
+/// normal form of C09
+fn check_normal_form(ops: &[DiffOp], new: &[u32]) -> Result<(), String> {
+    let is_eq = |op: &DiffOp| matches!(op, DiffOp::Equal { .. });
+    let mut nj_known: Option<usize> = None; // new cursor, walked (not trusting carried indices)
+    for (k, op) in ops.iter().enumerate() {
+        let empty = match *op {
+            DiffOp::Equal { len, .. } => len == 0,
+            DiffOp::Delete { old_len, .. } => old_len == 0,
+            DiffOp::Insert { new_len, .. } => new_len == 0,
+            DiffOp::Replace { old_len, new_len, .. } => old_len == 0 || new_len == 0,
+        };
+        if empty {
+            return Err(format!("op #{} {:?} is empty (clause: no op is empty)", k, op));
+        }
+        if k + 1 < ops.len() {
+            let nx = &ops[k + 1];
+            if is_eq(op) == is_eq(nx) {
+                return Err(format!("ops #{} {:?} and #{} {:?} do not alternate (clause: Equal and non-Equal ops strictly alternate; a deletion adjacent to an insertion is one Replace)", k, op, k + 1, nx));
+            }
+        }
+        // walk the new side using own-side indices only
+        let (nstart, nlen) = match *op {
+            DiffOp::Equal { new_index, len, .. } => (Some(new_index), len),
+            DiffOp::Insert { new_index, new_len, .. } | DiffOp::Replace { new_index, new_len, .. } => (Some(new_index), new_len),
+            DiffOp::Delete { .. } => (None, 0),
+        };
+        let cur = nstart.or(nj_known);
+        if let (DiffOp::Insert { new_len, .. }, Some(DiffOp::Equal { new_index: eq_new, .. })) = (op, ops.get(k + 1)) {
+            if let Some(c) = cur {
+                let _ = new_len;
+                if c < new.len() && *eq_new < new.len() && new[c] == new[*eq_new] {
+                    return Err(format!("op #{} {:?} is a pure insertion followed by {:?}; its first inserted item new[{}]={} equals the first equal item new[{}]={} so it could sit later (clause: a pure insertion followed by equal items sits at its latest position)", k, op, ops[k + 1], c, new[c], eq_new, new[*eq_new]));
+                }
+            }
+        }
+        nj_known = cur.map(|c| c + nlen);
+    }
+    Ok(())
+}
+
+fn c09(cases: &mut u64) -> Option<String> {
+    let all = seqs(3, 6);
+    for o in &all {
+        for n in &all {
+            for &alg in &ALGS {
+                for &expired in &[false, true] {
+                    *cases += 1;
+                    let dl = if expired { Some(expired_deadline()) } else { None };
+                    let ctx = format!("C09 alg={:?} old={:?} new={:?} deadline={} capture_diff_slices_deadline", alg, o, n, if expired { "expired" } else { "None" });
+                    let ops = match guard(|| capture_diff_slices_deadline(alg, &o[..], &n[..], dl)) {
+                        Ok(x) => x,
+                        Err(p) => return Some(format!("{}: {}", ctx, p)),
+                    };
+                    if let Err(e) = check_normal_form(&ops, n) {
+                        return Some(format!("{} ops={:?}: {}", ctx, ops, e));
+                    }
+                }
+            }
+        }
+    }
+    None
+}
+
+fn c11(cases: &mut u64) -> Option<String> {
+    let all = seqs(3, 5);
+    let exact = Rules { carried: Carried::Exact, finish: Fin::Ignore, nonempty: false };
+    for o in &all {
+        let (oa, or) = embed_old(o);
+        for n in &all {
+            let (na, nr) = embed_new(n);
+            for &alg in &ALGS {
+                *cases += 1;
+                let ops = match guard(|| capture_diff_slices_deadline(alg, &o[..], &n[..], None)) {
+                    Ok(x) => x,
+                    Err(p) => return Some(format!("C11 alg={:?} old={:?} new={:?}: {}", alg, o, n, p)),
+                };
+                if let Err(e) = check_script(&ops_calls(&ops), o, 0..o.len(), n, 0..n.len(), exact) {
+                    return Some(format!("C11 alg={:?} capture_diff_slices old={:?} new={:?} ops={:?}: {} (clause: both indices of every op equal the items consumed by all preceding ops plus the range start)", alg, o, n, ops, e));
+                }
+                let ops = match guard(|| capture_diff_deadline(alg, &oa[..], or.clone(), &na[..], nr.clone(), None)) {
+                    Ok(x) => x,
+                    Err(p) => return Some(format!("C11 alg={:?} old={:?}[{:?}] new={:?}[{:?}]: {}", alg, oa, or, na, nr, p)),
+                };
+                if let Err(e) = check_script(&ops_calls(&ops), &oa, or.clone(), &na, nr.clone(), exact) {
+                    return Some(format!("C11 alg={:?} capture_diff old={:?}[{:?}] new={:?}[{:?}] ops={:?}: {}", alg, oa, or, na, nr, ops, e));
+                }
+            }
+        }
+    }
+    None
+}
+
+// ---------------------------------------------------------------------------------------------
+// C10: all valid scripts through Compact / Replace / both
+// ---------------------------------------------------------------------------------------------
+#[derive(Clone, Copy, Debug)]
+enum Step {
+    Eq(usize),
+    Del(usize),
+    Ins(usize),
+}
+
+/// all step structures of valid scripts from (i,j) to the ends (unit and multi-item steps, any order)
+fn gen_structs(old: &[u32], new: &[u32], i: usize, j: usize, cur: &mut Vec<Step>, out: &mut Vec<Vec<Step>>) {
+    if i == old.len() && j == new.len() {
+        out.push(cur.clone());
+        return;
+    }
+    let mut len = 1;
+    while i + len <= old.len() && j + len <= new.len() && old[i + len - 1] == new[j + len - 1] {
+        cur.push(Step::Eq(len));
+        gen_structs(old, new, i + len, j + len, cur, out);
+        cur.pop();
+        len += 1;
+    }
+    for len in 1..=old.len() - i {
+        cur.push(Step::Del(len));
+        gen_structs(old, new, i + len, j, cur, out);
+        cur.pop();
+    }
+    for len in 1..=new.len() - j {
+        cur.push(Step::Ins(len));
+        gen_structs(old, new, i, j + len, cur, out);
+        cur.pop();
+    }
+}
+
+/// calls with exact carried indices + for every Delete/Insert the inclusive interval its carried
+/// index may take (the span of its run of changes on the other side)
+fn concretize(steps: &[Step]) -> (Vec<Call>, Vec<(usize, usize)>) {
+    let mut calls = Vec::new();
+    let mut span: Vec<(usize, usize)> = Vec::new();
+    let (mut i, mut j) = (0, 0);
+    let mut run_start = 0; // index into calls
+    let (mut ro, mut rn) = (0, 0);
+    let close = |from: usize, to: usize, calls: &Vec<Call>, span: &mut Vec<(usize, usize)>, ro: usize, rn: usize, i: usize, j: usize| {
+        for k in from..to {
+            span[k] = match calls[k] {
+                Call::Delete(..) => (rn, j),
+                Call::Insert(..) => (ro, i),
+                _ => (0, 0),
+            };
+        }
+    };
+    for s in steps {
+        match *s {
+            Step::Eq(l) => {
+                close(run_start, calls.len(), &calls, &mut span, ro, rn, i, j);
+                calls.push(Call::Equal(i, j, l));
+                span.push((0, 0));
+                i += l;
+                j += l;
+                run_start = calls.len();
+                ro = i;
+                rn = j;
+            }
+            Step::Del(l) => {
+                calls.push(Call::Delete(i, l, j));
+                span.push((0, 0));
+                i += l;
+            }
+            Step::Ins(l) => {
+                calls.push(Call::Insert(i, j, l));
+                span.push((0, 0));
+                j += l;
+            }
+        }
+    }
+    close(run_start, calls.len(), &calls, &mut span, ro, rn, i, j);
+    (calls, span)
+}
+
+fn feed<D: DiffHook>(d: &mut D, script: &[Call]) -> Result<(), D::Error> {
+    for c in script {
+        match *c {
+            Call::Equal(o, n, l) => d.equal(o, n, l)?,
+            Call::Delete(o, l, n) => d.delete(o, l, n)?,
+            Call::Insert(o, n, l) => d.insert(o, n, l)?,
+            Call::Replace(o, ol, n, nl) => d.replace(o, ol, n, nl)?,
+            Call::Finish => d.finish()?,
+        }
+    }
+    d.finish()
+}
+
+fn c10_check(script: &[Call], old: &[u32], new: &[u32]) -> Result<(), String> {
+    let (_, din, iin) = tally(script);
+    let outs: [(&str, Result<Vec<DiffOp>, String>); 3] = [
+        ("Compact(Capture)", guard(|| {
+            let mut d = Compact::new(Capture::new(), old, new);
+            feed(&mut d, script).unwrap();
+            d.into_inner().into_ops()
+        })),
+        ("Replace(Capture)", guard(|| {
+            let mut d = Replace::new(Capture::new());
+            feed(&mut d, script).unwrap();
+            d.into_inner().into_ops()
+        })),
+        ("Compact(Replace(Capture))", guard(|| {
+            let mut d = Compact::new(Replace::new(Capture::new()), old, new);
+            feed(&mut d, script).unwrap();
+            d.into_inner().into_inner().into_ops()
+        })),
+    ];
+    for (which, (name, res)) in outs.iter().enumerate() {
+        let ctx = format!("C10 adapter={} old={:?} new={:?} input script={:?} then finish()", name, old, new, script);
+        let ops = match res {
+            Ok(o) => o,
+            Err(p) => return Err(format!("{}: {}", ctx, p)),
+        };
+        // carried indices of the result are C11's business, except through Replace alone
+        let rules = Rules { carried: if which == 1 { Carried::Exact } else { Carried::Ignore }, finish: Fin::Ignore, nonempty: true };
+        check_script(&ops_calls(ops), old, 0..old.len(), new, 0..new.len(), rules)
+            .map_err(|e| format!("{}: output {:?}: {} (clause: yields a valid edit script for the same sequences{})", ctx, ops, e, if which == 1 { "; through the replace adapter alone carried indices stay exact" } else { "" }))?;
+        let (_, dout, iout) = tally(&ops_calls(ops));
+        if dout != din || iout != iin {
+            return Err(format!("{}: output {:?} deletes {} / inserts {} items, input deletes {} / inserts {} (clause: exactly the same number of deleted and of inserted items)", ctx, ops, dout, iout, din, iin));
+        }
+        if which == 2 {
+            check_normal_form(ops, new).map_err(|e| format!("{}: output {:?}: {} (clause: through both adapters the result is in the normal form of C09)", ctx, ops, e))?;
+        }
+    }
+    Ok(())
+}
+
+fn c10(cases: &mut u64) -> Option<String> {
+    let all = seqs(2, 3);
+    for o in &all {
+        for n in &all {
+            let mut structs = Vec::new();
+            gen_structs(o, n, 0, 0, &mut Vec::new(), &mut structs);
+            for st in &structs {
+                let (base, span) = concretize(st);
+                // odometer over every allowed carried index
+                let movable: Vec<usize> = (0..base.len()).filter(|&k| span[k].1 > span[k].0).collect();
+                let mut cur: Vec<usize> = movable.iter().map(|&k| span[k].0).collect();
+                loop {
+                    let mut script = base.clone();
+                    for (m, &k) in movable.iter().enumerate() {
+                        script[k] = match script[k] {
+                            Call::Delete(oi, l, _) => Call::Delete(oi, l, cur[m]),
+                            Call::Insert(_, nj, l) => Call::Insert(cur[m], nj, l),
+                            c => c,
+                        };
+                    }
+                    *cases += 1;
+                    if let Err(w) = c10_check(&script, o, n) {
+                        return Some(w);
+                    }
+                    let mut m = 0;
+                    loop {
+                        if m == movable.len() {
+                            break;
+                        }
+                        if cur[m] < span[movable[m]].1 {
+                            cur[m] += 1;
+                            break;
+                        }
+                        cur[m] = span[movable[m]].0;
+                        m += 1;
+                    }
+                    if m == movable.len() {
+                        break;
+                    }
+                }
+            }
+        }
+    }
+    None
+}
+
+// ---------------------------------------------------------------------------------------------
+// C12 grouping
+// ---------------------------------------------------------------------------------------------
+/// (old_start, old_end, new_start, new_end) from the op's fields (exact indices assumed)
+fn extents(op: &DiffOp) -> (usize, usize, usize, usize) {
+    match *op {
+        DiffOp::Equal { old_index, new_index, len } => (old_index, old_index + len, new_index, new_index + len),
+        DiffOp::Delete { old_index, old_len, new_index } => (old_index, old_index + old_len, new_index, new_index),
+        DiffOp::Insert { old_index, new_index, new_len } => (old_index, old_index, new_index, new_index + new_len),
+        DiffOp::Replace { old_index, old_len, new_index, new_len } => (old_index, old_index + old_len, new_index, new_index + new_len),
+    }
+}
+fn eq_len(op: &DiffOp) -> Option<usize> {
+    if let DiffOp::Equal { len, .. } = *op { Some(len) } else { None }
+}
+
+fn check_groups(ops: &[DiffOp], n: usize, groups: &[Vec<DiffOp>]) -> Result<(), String> {
+    // the input's changes and the number of equal items before / after each
+    let changes: Vec<usize> = (0..ops.len()).filter(|&k| eq_len(&ops[k]).is_none()).collect();
+    let before = |ci: usize| -> usize { let mut s = 0; let mut k = changes[ci]; while k > 0 && eq_len(&ops[k - 1]).is_some() { s += eq_len(&ops[k - 1]).unwrap(); k -= 1; } s };
+    let after = |ci: usize| -> usize { let mut s = 0; let mut k = changes[ci] + 1; while k < ops.len() && eq_len(&ops[k]).is_some() { s += eq_len(&ops[k]).unwrap(); k += 1; } s };
+    if changes.is_empty() && !groups.is_empty() {
+        return Err("the op list has no change but groups were returned (clause: no changes means no groups)".into());
+    }
+    let mut seen = 0usize; // number of input changes met so far
+    let mut group_of: Vec<usize> = Vec::new();
+    for (gi, g) in groups.iter().enumerate() {
+        if g.iter().all(|op| eq_len(op).is_some()) {
+            return Err(format!("group #{} {:?} consists of Equal ops only / is empty", gi, g));
+        }
+        for w in g.windows(2) {
+            let (a, b) = (extents(&w[0]), extents(&w[1]));
+            if a.1 != b.0 || a.3 != b.2 {
+                return Err(format!("group #{}: {:?} is not directly followed by {:?} (clause: each group is a contiguous run of ops)", gi, w[0], w[1]));
+            }
+        }
+        let first_change = seen;
+        let mut lead = 0usize;
+        let mut gap = 0usize; // equal items since the last change in this group
+        let mut met_change = false;
+        for op in g {
+            if let Some(l) = eq_len(op) {
+                if met_change { gap += l } else { lead += l }
+                continue;
+            }
+            if seen >= changes.len() || *op != ops[changes[seen]] {
+                return Err(format!("group #{}: change {:?} is not the next change of the input ({:?}) (clause: every non-Equal op exactly once, unchanged and in order)", gi, op, changes.get(seen).map(|&k| ops[k])));
+            }
+            if met_change {
+                let whole = after(seen - 1);
+                if gap != whole {
+                    return Err(format!("group #{}: interior equal run before {:?} has {} items, the input has {} there (clause: keeps interior equal runs whole)", gi, op, gap, whole));
+                }
+                if gap > 2 * n {
+                    return Err(format!("group #{}: interior equal run of {} items > 2n = {} (clause: interior runs are at most 2n long)", gi, gap, 2 * n));
+                }
+            }
+            met_change = true;
+            gap = 0;
+            group_of.push(gi);
+            seen += 1;
+        }
+        let trail = gap;
+        let (want_lead, want_trail) = (n.min(before(first_change)), n.min(after(seen - 1)));
+        if lead != want_lead {
+            return Err(format!("group #{} {:?} starts with {} equal items of context, expected min(n={}, available={}) = {}", gi, g, lead, n, before(first_change), want_lead));
+        }
+        if trail != want_trail {
+            return Err(format!("group #{} {:?} ends with {} equal items of context, expected min(n={}, available={}) = {}", gi, g, trail, n, after(seen - 1), want_trail));
+        }
+    }
+    if seen != changes.len() {
+        return Err(format!("only {} of the {} changes appear in the groups (clause: every non-Equal op exactly once)", seen, changes.len()));
+    }
+    for ci in 0..changes.len().saturating_sub(1) {
+        let sep = after(ci);
+        let split = group_of[ci] != group_of[ci + 1];
+        if split != (sep > 2 * n) {
+            return Err(format!("changes {:?} and {:?} are separated by {} equal items, 2n = {}, but they are in {} group(s) (clause: different groups exactly when more than 2n equal items separate them)", ops[changes[ci]], ops[changes[ci + 1]], sep, 2 * n, if split { "different" } else { "the same" }));
+        }
+    }
+    Ok(())
+}
+
+fn c12_rec(ops: &mut Vec<DiffOp>, oi: usize, nj: usize, left: usize, cases: &mut u64) -> Option<String> {
+    for n in 0..=3usize {
+        *cases += 1;
+        let groups = match guard(|| group_diff_ops(ops.clone(), n)) {
+            Ok(g) => g,
+            Err(p) => return Some(format!("C12 group_diff_ops(ops={:?}, n={}): {}", ops, n, p)),
+        };
+        if let Err(e) = check_groups(ops, n, &groups) {
+            return Some(format!("C12 group_diff_ops(ops={:?}, n={}) = {:?}: {}", ops, n, groups, e));
+        }
+    }
+    if left == 0 {
+        return None;
+    }
+    let last_is_eq = ops.last().map(|op| eq_len(op).is_some());
+    if last_is_eq != Some(true) {
+        for &len in &[1usize, 2, 3, 5, 8] {
+            ops.push(DiffOp::Equal { old_index: oi, new_index: nj, len });
+            let r = c12_rec(ops, oi + len, nj + len, left - 1, cases);
+            ops.pop();
+            if r.is_some() {
+                return r;
+            }
+        }
+    }
+    if last_is_eq != Some(false) {
+        let shapes: [(usize, usize); 6] = [(1, 0), (3, 0), (0, 1), (0, 2), (1, 1), (2, 3)];
+        for &(dl, il) in &shapes {
+            let op = if il == 0 {
+                DiffOp::Delete { old_index: oi, old_len: dl, new_index: nj }
+            } else if dl == 0 {
+                DiffOp::Insert { old_index: oi, new_index: nj, new_len: il }
+            } else {
+                DiffOp::Replace { old_index: oi, old_len: dl, new_index: nj, new_len: il }
+            };
+            ops.push(op);
+            let r = c12_rec(ops, oi + dl, nj + il, left - 1, cases);
+            ops.pop();
+            if r.is_some() {
+                return r;
+            }
+        }
+    }
+    None
+}
+
+fn c12(cases: &mut u64) -> Option<String> {
+    c12_rec(&mut Vec::new(), 0, 0, 7, cases)
+}
+
+// ---------------------------------------------------------------------------------------------
+// C13 expansion of ops
+// ---------------------------------------------------------------------------------------------
+type Flat = (ChangeTag, Option<usize>, Option<usize>, u32);
+
+/// what item-wise expansion must yield, from the statement
+fn expected_changes(op: &DiffOp, old: &[u32], new: &[u32]) -> Vec<Flat> {
+    let mut v = Vec::new();
+    match *op {
+        DiffOp::Equal { old_index, new_index, len } => {
+            for k in 0..len {
+                v.push((ChangeTag::Equal, Some(old_index + k), Some(new_index + k), old[old_index + k]));
+            }
+        }
+        DiffOp::Delete { old_index, old_len, .. } => {
+            for k in 0..old_len {
+                v.push((ChangeTag::Delete, Some(old_index + k), None, old[old_index + k]));
+            }
+        }
+        DiffOp::Insert { new_index, new_len, .. } => {
+            for k in 0..new_len {
+                v.push((ChangeTag::Insert, None, Some(new_index + k), new[new_index + k]));
+            }
+        }
+        DiffOp::Replace { old_index, old_len, new_index, new_len } => {
+            for k in 0..old_len {
+                v.push((ChangeTag::Delete, Some(old_index + k), None, old[old_index + k]));
+            }
+            for k in 0..new_len {
+                v.push((ChangeTag::Insert, None, Some(new_index + k), new[new_index + k]));
+            }
+        }
+    }
+    v
+}
+
+fn c13_op(op: &DiffOp, old: &[u32], new: &[u32]) -> Result<(), String> {
+    let ctx = format!("C13 op={:?} old={:?} new={:?}", op, old, new);
+    let want = expected_changes(op, old, new);
+    let got: Vec<Flat> = guard(|| op.iter_changes(old, new).map(|c: Change<u32>| (c.tag(), c.old_index(), c.new_index(), c.value())).collect())
+        .map_err(|p| format!("{} iter_changes: {}", ctx, p))?;
+    if got != want {
+        return Err(format!("{}: iter_changes yields (tag, old_index, new_index, value) {:?}, expected {:?}", ctx, got, want));
+    }
+    // slice-wise: the same items as one slice (two for Replace)
+    let mut want_slices: Vec<(ChangeTag, Vec<u32>)> = Vec::new();
+    for f in &want {
+        let tag = f.0;
+        if want_slices.last().map(|l| l.0) == Some(tag) {
+            want_slices.last_mut().unwrap().1.push(f.3);
+        } else {
+            want_slices.push((tag, vec![f.3]));
+        }
+    }
+    let got_slices: Vec<(ChangeTag, Vec<u32>)> = guard(|| op.iter_slices(old, new).map(|(t, s): (ChangeTag, &[u32])| (t, s.to_vec())).collect())
+        .map_err(|p| format!("{} iter_slices: {}", ctx, p))?;
+    if got_slices != want_slices {
+        return Err(format!("{}: iter_slices yields {:?}, expected {:?}", ctx, got_slices, want_slices));
+    }
+    // re-applying the op to a capturing hook reproduces the op
+    let back = guard(|| {
+        let mut c = Capture::new();
+        op.apply_to_hook(&mut c).unwrap();
+        c.into_ops()
+    })
+    .map_err(|p| format!("{} apply_to_hook: {}", ctx, p))?;
+    if back != vec![*op] {
+        return Err(format!("{}: apply_to_hook on Capture gives {:?}", ctx, back));
+    }
+    let calls = guard(|| {
+        let mut r = Rec::default();
+        let _ = op.apply_to_hook(&mut r);
+        r.calls
+    })
+    .map_err(|p| format!("{} apply_to_hook: {}", ctx, p))?;
+    if calls != vec![op_call(op)] {
+        return Err(format!("{}: apply_to_hook delivered {:?}", ctx, calls));
+    }
+    Ok(())
+}
+
+fn c13(cases: &mut u64) -> Option<String> {
+    // synthetic single ops on sequences with pairwise different values (value source is observable)
+    let (so, sn): (Vec<u32>, Vec<u32>) = ((10..15).collect(), (20..25).collect());
+    for oi in 0..4 {
+        for nj in 0..4 {
+            for ol in 0..=2 {
+                for nl in 0..=2 {
+                    let mut ops = vec![DiffOp::Replace { old_index: oi, old_len: ol, new_index: nj, new_len: nl }];
+                    if nl == 0 {
+                        ops.push(DiffOp::Delete { old_index: oi, old_len: ol, new_index: nj });
+                    }
+                    if ol == 0 {
+                        ops.push(DiffOp::Insert { old_index: oi, new_index: nj, new_len: nl });
+                    }
+                    for op in &ops {
+                        *cases += 1;
+                        if let Err(w) = c13_op(op, &so, &sn) {
+                            return Some(w);
+                        }
+                    }
+                }
+            }
+        }
+    }
+    let all = seqs(3, 4);
+    for o in &all {
+        let ot = to_text(o);
+        for n in &all {
+            let nt = to_text(n);
+            for &alg in &ALGS {
+                *cases += 1;
+                let ops = match guard(|| capture_diff_slices_deadline(alg, &o[..], &n[..], None)) {
+                    Ok(x) => x,
+                    Err(p) => return Some(format!("C13 alg={:?} old={:?} new={:?}: {}", alg, o, n, p)),
+                };
+                for op in &ops {
+                    if let Err(w) = c13_op(op, o, n) {
+                        return Some(format!("{} (op list {:?} from alg {:?})", w, ops, alg));
+                    }
+                }
+                // whole-diff iteration == concatenation of the per-op expansions
+                let r = guard(|| {
+                    let d = TextDiff::configure().algorithm(alg).diff_chars(&ot[..], &nt[..]);
+                    let all_changes: Vec<Change<&str>> = d.iter_all_changes().collect();
+                    let per_op: Vec<Change<&str>> = d.ops().iter().flat_map(|op| d.iter_changes(op)).collect();
+                    let per_op2: Vec<Change<&str>> = d.ops().iter().flat_map(|op| op.iter_changes(d.old_slices(), d.new_slices())).collect();
+                    let ops = d.ops().to_vec();
+                    let olds: Vec<String> = d.old_slices().iter().map(|s| s.to_string()).collect();
+                    let news: Vec<String> = d.new_slices().iter().map(|s| s.to_string()).collect();
+                    let flat = |v: &Vec<Change<&str>>| -> Vec<(ChangeTag, Option<usize>, Option<usize>, String)> { v.iter().map(|c| (c.tag(), c.old_index(), c.new_index(), c.value().to_string())).collect() };
+                    (flat(&all_changes), flat(&per_op), flat(&per_op2), ops, olds, news)
+                });
+                match r {
+                    Err(p) => return Some(format!("C13 alg={:?} TextDiff chars {:?} vs {:?}: {}", alg, ot, nt, p)),
+                    Ok((a, b, b2, ops, olds, news)) => {
+                        if a != b || a != b2 {
+                            return Some(format!("C13 alg={:?} TextDiff chars {:?} vs {:?} ops={:?}: iter_all_changes = {:?} but concatenated per-op iter_changes = {:?} / {:?}", alg, ot, nt, ops, a, b, b2));
+                        }
+                        // and both equal the expansion demanded by the statement
+                        let mut want = Vec::new();
+                        for op in &ops {
+                            for (t, oi, nj, _) in expected_changes(op, o, n) {
+                                let val = match t {
+                                    ChangeTag::Insert => news[nj.unwrap()].clone(),
+                                    _ => olds[oi.unwrap()].clone(),
+                                };
+                                want.push((t, oi, nj, val));
+                            }
+                        }
+                        if a != want {
+                            return Some(format!("C13 alg={:?} TextDiff chars {:?} vs {:?} ops={:?}: iter_all_changes = {:?}, expected {:?}", alg, ot, nt, ops, a, want));
+                        }
+                    }
+                }
+            }
+        }
+    }
+    None
+}
+
+// ---------------------------------------------------------------------------------------------
+// C05 unified diff: header numbers, strict application
+// ---------------------------------------------------------------------------------------------
+fn line_texts() -> Vec<String> {
+    let mut out = vec![String::new()];
+    for s in seqs(3, 4) {
+        if s.is_empty() {
+            continue;
+        }
+        let t: String = s.iter().map(|&x| format!("{}\n", (b'a' + x as u8) as char)).collect();
+        out.push(t.clone());
+        out.push(t[..t.len() - 1].to_string()); // last line without newline
+    }
+    out
+}
+
+fn parse_range(s: &str) -> Option<(usize, usize)> {
+    let mut it = s.splitn(2, ',');
+    let a = it.next()?.parse().ok()?;
+    let b = match it.next() {
+        Some(x) => x.parse().ok()?,
+        None => 1,
+    };
+    Some((a, b))
+}
+
+/// "@@ -a,b +c,d @@" -> ((a,b),(c,d))
+fn parse_header(h: &str) -> Option<((usize, usize), (usize, usize))> {
+    let body = h.strip_prefix("@@ -")?.strip_suffix(" @@")?;
+    let mut it = body.splitn(2, " +");
+    let o = parse_range(it.next()?)?;
+    let n = parse_range(it.next()?)?;
+    Some((o, n))
+}
+
+fn split_lines(s: &str) -> Vec<String> {
+    s.split_inclusive('\n').map(|x| x.to_string()).collect()
+}
+
+fn c05_check(old: &str, new: &str, hunks: &[(String, String)]) -> Result<(), String> {
+    let (ol, nl) = (split_lines(old), split_lines(new));
+    let mut cursor = 0usize;
+    let mut out: Vec<String> = Vec::new();
+    for (hi, (header, text)) in hunks.iter().enumerate() {
+        let ((a, b), (c, d)) = parse_header(header).ok_or_else(|| format!("hunk #{}: header {:?} does not parse as '@@ -a,b +c,d @@'", hi, header))?;
+        let mut lines: Vec<(char, String)> = Vec::new();
+        let mut it = text.split('\n').collect::<Vec<_>>();
+        if it.last() == Some(&"") {
+            it.pop();
+        }
+        if it.first().copied() != Some(&header[..]) {
+            return Err(format!("hunk #{}: rendered hunk {:?} does not start with its header {:?}", hi, text, header));
+        }
+        for l in &it[1..] {
+            match l.chars().next() {
+                Some(t) if t == ' ' || t == '-' || t == '+' => lines.push((t, format!("{}\n", &l[1..]))),
+                Some('\\') => match lines.last_mut() {
+                    Some(last) => {
+                        last.1.pop();
+                    }
+                    None => return Err(format!("hunk #{}: no-newline marker without a line", hi)),
+                },
+                _ => return Err(format!("hunk #{}: body line {:?} has no ' ', '-', '+' prefix", hi, l)),
+            }
+        }
+        let old_count = lines.iter().filter(|l| l.0 != '+').count();
+        let new_count = lines.iter().filter(|l| l.0 != '-').count();
+        if old_count != b || new_count != d {
+            return Err(format!("hunk #{} header {:?}: body has {} old-side and {} new-side lines (clause: counts equal the numbers of old-side and new-side lines in the hunk body)", hi, header, old_count, new_count));
+        }
+        if (b > 0 && a == 0) || (d > 0 && c == 0) {
+            return Err(format!("hunk #{} header {:?}: start line 0 with a non-zero count", hi, header));
+        }
+        let os = if b == 0 { a } else { a - 1 }; // 0-based index of the first old line the hunk touches
+        let ns = if d == 0 { c } else { c - 1 };
+        if os < cursor {
+            return Err(format!("hunk #{} header {:?}: old start is before the end of the previous hunk (old line {}) (clause: increasing, non-overlapping)", hi, header, cursor));
+        }
+        if os > ol.len() {
+            return Err(format!("hunk #{} header {:?}: old start beyond the old text ({} lines)", hi, header, ol.len()));
+        }
+        out.extend_from_slice(&ol[cursor..os]);
+        cursor = os;
+        if out.len() != ns {
+            let truth = if d == 0 { out.len() } else { out.len() + 1 };
+            return Err(format!("hunk #{} header {:?}: with the old side at line {}, {} new lines precede this hunk, so the new-side start must read {} but the header says {} (clause: start lines are the true positions)", hi, header, a, out.len(), truth, c));
+        }
+        for (t, content) in &lines {
+            if *t != '+' {
+                if cursor >= ol.len() || ol[cursor] != *content {
+                    return Err(format!("hunk #{} header {:?}: line {:?}{:?} does not match old line {} ({:?}) (clause: every context and '-' line must match the old text at the stated position)", hi, header, t, content, cursor + 1, ol.get(cursor)));
+                }
+                cursor += 1;
+            }
+            if *t != '-' {
+                out.push(content.clone());
+            }
+        }
+    }
+    out.extend_from_slice(&ol[cursor..]);
+    if out != nl {
+        return Err(format!("applying the hunks to old yields {:?}, not new {:?}", out.concat(), new));
+    }
+    Ok(())
+}
+
+fn c05(cases: &mut u64) -> Option<String> {
+    let texts = line_texts();
+    for o in &texts {
+        for n in &texts {
+            for &alg in &ALGS {
+                for radius in 0..=2usize {
+                    *cases += 1;
+                    let r = guard(|| {
+                        let d = TextDiff::configure().algorithm(alg).diff_lines(&o[..], &n[..]);
+                        let hunks: Vec<(String, String)> = d.unified_diff().context_radius(radius).iter_hunks().map(|h| (h.header().to_string(), h.to_string())).collect();
+                        (hunks, d.ops().to_vec())
+                    });
+                    match r {
+                        Err(p) => return Some(format!("C05 alg={:?} old={:?} new={:?} radius={}: {}", alg, o, n, radius, p)),
+                        Ok((hunks, ops)) => {
+                            if let Err(e) = c05_check(o, n, &hunks) {
+                                let headers: Vec<&String> = hunks.iter().map(|h| &h.0).collect();
+                                return Some(format!("C05 TextDiff::configure().algorithm({:?}).diff_lines(old={:?}, new={:?}).unified_diff().context_radius({}): hunk headers {:?} (ops {:?}): {}", alg, o, n, radius, headers, ops, e));
+                            }
+                        }
+                    }
+                }
+            }
+        }
+    }
+    None
+}
+
+// ---------------------------------------------------------------------------------------------
+// C04 / C17 text reconstruction, remapper, one-call helpers
+// ---------------------------------------------------------------------------------------------
+fn small_texts(max_len: usize) -> Vec<String> {
+    let chars = ['a', 'b', ' ', '\n'];
+    seqs(4, max_len).iter().map(|s| s.iter().map(|&x| chars[x as usize]).collect()).collect()
+}
+
+type TextFlat = (ChangeTag, Option<usize>, Option<usize>, String);
+
+fn c04_changes(ctx: &str, old: &str, new: &str, ch: &[TextFlat]) -> Result<(), String> {
+    let (mut o, mut n) = (String::new(), String::new());
+    let (mut oi, mut nj) = (0usize, 0usize);
+    for (k, (tag, ox, nx, val)) in ch.iter().enumerate() {
+        let (want_o, want_n) = match tag {
+            ChangeTag::Equal => (Some(oi), Some(nj)),
+            ChangeTag::Delete => (Some(oi), None),
+            ChangeTag::Insert => (None, Some(nj)),
+        };
+        if *ox != want_o || *nx != want_n {
+            return Err(format!("{}: change #{} {:?} has indices old={:?} new={:?}, expected old={:?} new={:?} (clause: indices count tokens consecutively from zero on each side)", ctx, k, tag, ox, nx, want_o, want_n));
+        }
+        if *tag != ChangeTag::Insert {
+            o.push_str(val);
+            oi += 1;
+        }
+        if *tag != ChangeTag::Delete {
+            n.push_str(val);
+            nj += 1;
+        }
+    }
+    if o != old || n != new {
+        return Err(format!("{}: changes {:?}: non-Insert values concatenate to {:?} (old {:?}), non-Delete values to {:?} (new {:?})", ctx, ch, o, old, n, new));
+    }
+    Ok(())
+}
+
+fn c17_slices(ctx: &str, old: &str, new: &str, sl: &[(ChangeTag, String)]) -> Result<(), String> {
+    let (mut o, mut n) = (String::new(), String::new());
+    for (tag, s) in sl {
+        if s.is_empty() {
+            return Err(format!("{}: returned an empty slice: {:?} (clause: never return an empty slice)", ctx, sl));
+        }
+        if *tag != ChangeTag::Insert {
+            o.push_str(s);
+        }
+        if *tag != ChangeTag::Delete {
+            n.push_str(s);
+        }
+    }
+    if o != old || n != new {
+        return Err(format!("{}: slices {:?}: non-Insert slices give {:?} (old {:?}), non-Delete slices give {:?} (new {:?})", ctx, sl, o, old, n, new));
+    }
+    Ok(())
+}
+
+fn c04(cases: &mut u64) -> Option<String> {
+    let texts = small_texts(4);
+    let own = |v: Vec<(ChangeTag, &str)>| -> Vec<(ChangeTag, String)> { v.into_iter().map(|(t, s)| (t, s.to_string())).collect() };
+    for o in &texts {
+        for n in &texts {
+            for &alg in &ALGS {
+                for tok in 0..3 {
+                    *cases += 1;
+                    let tname = ["lines", "words", "chars"][tok];
+                    let ctx = format!("C04/C17 tokenizer={} alg={:?} old={:?} new={:?}", tname, alg, o, n);
+                    let r = guard(|| {
+                        let mut cfg = TextDiff::configure();
+                        cfg.algorithm(alg);
+                        let d = match tok {
+                            0 => cfg.diff_lines(&o[..], &n[..]),
+                            1 => cfg.diff_words(&o[..], &n[..]),
+                            _ => cfg.diff_chars(&o[..], &n[..]),
+                        };
+                        let ch: Vec<TextFlat> = d.iter_all_changes().map(|c| (c.tag(), c.old_index(), c.new_index(), c.value().to_string())).collect();
+                        let rm = TextDiffRemapper::from_text_diff(&d, &o[..], &n[..]);
+                        // per op: remapped slices next to the concatenation of the op's tokens
+                        let mut per_op: Vec<(DiffOp, Vec<(ChangeTag, String)>, Vec<(ChangeTag, String)>)> = Vec::new();
+                        for op in d.ops() {
+                            let got: Vec<(ChangeTag, String)> = rm.iter_slices(op).map(|(t, s)| (t, s.to_string())).collect();
+                            let (_, orr, nrr) = op.as_tag_tuple();
+                            let oc: String = d.old_slices()[orr.clone()].concat();
+                            let nc: String = d.new_slices()[nrr.clone()].concat();
+                            let want = match op {
+                                DiffOp::Equal { .. } => vec![(ChangeTag::Equal, oc)],
+                                DiffOp::Delete { .. } => vec![(ChangeTag::Delete, oc)],
+                                DiffOp::Insert { .. } => vec![(ChangeTag::Insert, nc)],
+                                DiffOp::Replace { .. } => vec![(ChangeTag::Delete, oc), (ChangeTag::Insert, nc)],
+                            };
+                            per_op.push((*op, got, want));
+                        }
+                        (ch, per_op)
+                    });
+                    let (ch, per_op) = match r {
+                        Ok(x) => x,
+                        Err(p) => return Some(format!("{}: {}", ctx, p)),
+                    };
+                    if let Err(e) = c04_changes(&format!("{} iter_all_changes", ctx), o, n, &ch) {
+                        return Some(e);
+                    }
+                    let mut all_slices = Vec::new();
+                    for (op, got, want) in &per_op {
+                        if got != want {
+                            return Some(format!("{}: TextDiffRemapper::iter_slices({:?}) = {:?}, the op's tokens concatenate to {:?}", ctx, op, got, want));
+                        }
+                        all_slices.extend(got.iter().cloned());
+                    }
+                    if let Err(e) = c17_slices(&format!("{} TextDiffRemapper", ctx), o, n, &all_slices) {
+                        return Some(e);
+                    }
+                    let helper = guard(|| match tok {
+                        0 => own(sutils::diff_lines(alg, &o[..], &n[..])),
+                        1 => own(sutils::diff_words(alg, &o[..], &n[..])),
+                        _ => own(sutils::diff_chars(alg, &o[..], &n[..])),
+                    });
+                    match helper {
+                        Err(p) => return Some(format!("{} utils::diff_{}: {} (clause: the one-call helpers never panic)", ctx, tname, p)),
+                        Ok(sl) => {
+                            if let Err(e) = c17_slices(&format!("{} utils::diff_{}", ctx, tname), o, n, &sl) {
+                                return Some(e);
+                            }
+                        }
+                    }
+                }
+            }
+        }
+    }
+    None
+}
+
+// ---------------------------------------------------------------------------------------------
+fn main() {
+    let mode = std::env::args().nth(1).unwrap_or_default();
+    install_panic_hook();
+    let mut cases = 0u64;
+    let t0 = Instant::now();
+    let (res, bounds) = match &mode[..] {
+        "C01" => (c01(&mut cases), "alphabet {0,1,2}, len 0..=6, 3 algorithms x (embedded sub-range, guarded Index, extracted slices)"),
+        "C07" => (c07(&mut cases), "alphabet {0,1,2}, len 0..=5, deadline expired at entry, raw algorithms + capture_diff_deadline"),
+        "C08" => (c08(&mut cases), "alphabet {0,1,2}, len 0..=4, 6 hook stacks x 2 hook kinds x every failing call index"),
+        "C02" => (c02(&mut cases), "alphabet {0,1,2}, len 0..=5, deadline none/expired, slices + sub-ranges + TextDiff chars"),
+        "C03" => (c03(&mut cases), "alphabet {0,1,2} len 0..=6 and alphabet {0,1} len 0..=8, Myers + LCS, raw + captured"),
+        "C09" => (c09(&mut cases), "alphabet {0,1,2}, len 0..=6, deadline none/expired"),
+        "C10" => (c10(&mut cases), "alphabet {0,1}, len 0..=3, all valid scripts x all carried indices x 3 adapter stacks"),
+        "C11" => (c11(&mut cases), "alphabet {0,1,2}, len 0..=5, slices + embedded sub-ranges"),
+        "C12" => (c12(&mut cases), "alternating exact op lists up to 7 ops, equal lens {1,2,3,5,8}, 6 change shapes, n 0..=3"),
+        "C13" => (c13(&mut cases), "synthetic ops + captured ops for alphabet {0,1,2} len 0..=4 + TextDiff chars"),
+        "C05" => (c05(&mut cases), "lines {a,b,c}, 0..=4 lines, optional missing final newline, radius 0..=2"),
+        "C04" | "C17" => (c04(&mut cases), "texts over {a,b,space,newline} len 0..=4, lines/words/chars, iter_all_changes + remapper + utils helpers"),
+        _ => {
+            eprintln!("usage: replay <C01|C02|C03|C04|C05|C07|C08|C09|C10|C11|C12|C13|C17>");
+            std::process::exit(2);
+        }
+    };
+    match res {
+        Some(w) => {
+            println!("WITNESS {}", w.replace('\n', "\\n"));
+            std::process::exit(1);
+        }
+        None => {
+            println!("NONE {} cases={} bounds: {} ({:.1}s)", mode, cases, bounds, t0.elapsed().as_secs_f64());
+        }
+    }
+}
